@@ -5,14 +5,14 @@
    size': Consider picks ANY remaining clique of the currently largest size.      *)
 EXTENDS CliqueOps, Sequences, TLC
 
-CONSTANTS MaxV, Limits, SmallFirst
+CONSTANTS MaxV, Limits, SmallFirst, MaxCovers
 
-VARIABLES n, g, limit, remaining, claimed, cover, phase
-vars == <<n, g, limit, remaining, claimed, cover, phase>>
+VARIABLES n, g, limit, remaining, claimed, cover, phase, covers
+vars == <<n, g, limit, remaining, claimed, cover, phase, covers>>
 
 Graphs(k) == {x \in SUBSET Pairs(1..k) : x # {}}
 Init == /\ n \in 2..MaxV /\ g \in Graphs(n) /\ limit \in Limits
-        /\ remaining = Cliques(g) /\ claimed = {} /\ cover = {} /\ phase = "consider"
+        /\ remaining = Cliques(g) /\ claimed = {} /\ cover = {} /\ phase = "consider" /\ covers = 1
 
 Size(c) == Cardinality(c)
 NextSizes == IF SmallFirst                                         \* deviation: reverse=True dropped
@@ -27,10 +27,19 @@ Consider ==
              ELSE IF Pairs(c) \cap claimed = {}
                   THEN claimed' = claimed \cup Pairs(c) /\ cover' = cover \cup {c}
                   ELSE UNCHANGED <<claimed, cover>>
-    /\ UNCHANGED <<n, g, limit, phase>>
+    /\ UNCHANGED <<n, g, limit, phase, covers>>
 Label == /\ phase = "consider" /\ remaining = {} /\ phase' = "done"
-         /\ UNCHANGED <<n, g, limit, remaining, claimed, cover>>
-Next == Consider \/ Label
+         /\ UNCHANGED <<n, g, limit, remaining, claimed, cover, covers>>
+(* history on one graph object: the graph is edited (one edge moved, so vertex and edge counts stay the same; or only
+   the limit changes) and covered again: the new cover is computed from the CURRENT graph *)
+EditAndCoverAgain ==
+    /\ phase = "done" /\ covers < MaxCovers
+    /\ \E e \in g : \E f \in (Pairs(1..n) \ g) \cup {e} :
+          /\ g' = (g \ {e}) \cup {f}
+          /\ remaining' = Cliques(g')
+    /\ limit' \in Limits
+    /\ claimed' = {} /\ cover' = {} /\ phase' = "consider" /\ covers' = covers + 1 /\ UNCHANGED n
+Next == Consider \/ Label \/ EditAndCoverAgain
 Spec == Init /\ [][Next]_vars
 
 (* --------------- properties (also used verbatim by the JUDGE on recorded covers) --------------- *)
